@@ -4,7 +4,7 @@
    destroyed values predicted by the specification). *)
 From SV Require Import Base.ListX Store.Raw Store.RawRefine Store.CleanProps Store.Masked Store.StoreInv Store.Bag Store.Ledger
   Store.ClearLedger Store.DeadHandle
-  World.Env World.WorldSpec World.World World.Simulation World.NoStuck.
+  World.Env World.SopLedger World.WorldSpec World.World World.Simulation World.NoStuck.
 From Coq Require Import Sorting.Permutation.
 
 (* no operation ever reads a slot that was never written, was moved out, or lies outside the
@@ -143,6 +143,13 @@ Theorem C08_get_mut_or_default_conserves : forall ms m av e c, LInvS ms m ->
     conserves m m' (if present ms av e then [] else [fst (tnorm ms (if ms_unit ms then unit_tok else default_tok))]) [] c c'.
 Proof. exact gmd_conserves. Qed.
 
+(* all of the Storage API at once: whatever the operation, the values held afterwards, handed back and destroyed
+   are the values held before plus those moved in *)
+Theorem C08_every_storage_operation_conserves : forall ms m av ent so c, LInvS ms m ->
+  let '(ms', out, c') := ms_sop ms av ent so c in
+  exists m', LInvS ms' m' /\ conserves m m' (sop_ins ms av ent so) (sop_rets so out) c c'.
+Proof. exact sop_conserves. Qed.
+
 Example C08_nonvacuous :
   let s := {| v_len := 6; v_slots := NM.add 5 (SInit (13, 3%Z)) (NM.add 2 (SInit (12, 2%Z)) (NM.add 0 (SInit (11, 1%Z)) (NM.empty slot))) |} in
   rev (cx_drops (snd (vec_clean s [0; 2; 5] cx0))) = [11; 12; 13] /\
@@ -167,3 +174,4 @@ Print Assumptions C08_deleting_entities_conserves.
 Print Assumptions C08_entry_api_conserves.
 Print Assumptions C08_clear_conserves.
 Print Assumptions C08_get_mut_or_default_conserves.
+Print Assumptions C08_every_storage_operation_conserves.
